@@ -6,6 +6,7 @@
              3 Close while the datasource is inside the lookup of relation k and honours only its context) k
            | emitted: list of id;  err (mode 0: 0 nil, 1 cancelled, 2 datasource error; else 0 nil, 1 non-nil)
              terminated (Next false afterwards, goroutine gone within the deadline)
+             CompletedIndex read after Close (mode 0; -1 otherwise)
    codes: 1 = model <> implementation, 2 = property oracle fails on the observation,
           3 = the rank and the closure reading of acyclicity differ (oracle self-check),
           0 = case does not parse. *)
@@ -28,7 +29,7 @@ Definition pnode : P node :=
 
 Definition check_order : P (list Z) :=
   nodes <- plist pnode ;; reqs <- plist pint ;; mode <- pint ;; k <- pnat ;;
-  seq <- plist pint ;; err <- pint ;; term <- pbool ;;
+  seq <- plist pint ;; err <- pint ;; term <- pbool ;; ci <- pint ;;
   let ds := ds_of nodes in
   let ids := map (fun n => fst (fst n)) nodes in
   let n := S (List.length nodes) in
@@ -43,6 +44,7 @@ Definition check_order : P (list Z) :=
     | _ =>
         term &&
         if mode =? 0 then list_eqb Z.eqb seq out && (err =? match s with SErr => 2 | _ => 0 end)
+                          && (ci =? completed_index ds (n + 3) reqs)
         else if mode =? 3 then list_eqb Z.eqb seq out3 && negb (err =? 0)
                                && match s3 with SFuel => false | _ => true end
         else list_eqb Z.eqb seq (firstn k out) && negb (err =? 0)
